@@ -8,7 +8,7 @@ from client objects, unchanged by failed calls.
 Spec:    QualRepo.tla (requirement machine: clauses R1-R12 with their
          documentation sources in the header), QualRepoImplOps/QualRepoImpl.tla
          (code-shaped machine, Impl => Req for every call in every reachable
-         repository, with and without client mutation; three configurations
+         repository, with and without client mutation; four configurations
          with the pinned tree's behaviour and four realistic wrong variants must
          be refuted), QualRepoTrace.tla (TraceKit).
 Binding: call sequences simulated by TLC and seeded random histories run on the
@@ -34,6 +34,9 @@ REGRESSION = [
      "namespace"),
     ("QualRepoImplPinnedCompile.cfg", "Compile.FailsWhenInvalid",
      "pinned tree: compile_mof_string replaces an existing qualifier type"),
+    ("QualRepoImplPinnedAddType.cfg", "AddObj.DocumentedStatusCode",
+     "pinned tree: add_cimobjects ends in `assert False` (AssertionError) for "
+     "an object of a foreign type"),
     ("QualRepoImplLegacyGetAlias.cfg",
      "Isolated.ClientMutationDoesNotChangeRepository",
      "variant: GetQualifier hands out the stored object"),
@@ -46,8 +49,9 @@ REGRESSION = [
      "variant: remove_namespace ignores the qualifier store"),
 ]
 
-# the quick tier runs five of the seven (TLC start-up time dominates them)
-QUICK_SKIP = ("QualRepoImplLegacyGetAlias.cfg", "QualRepoImplLegacyNsQuals.cfg")
+# the quick tier runs five of the eight (TLC start-up time dominates them)
+QUICK_SKIP = ("QualRepoImplLegacyGetAlias.cfg", "QualRepoImplLegacyNsQuals.cfg",
+              "QualRepoImplLegacyNoRollback.cfg")
 
 
 def run(ctx):
@@ -71,31 +75,37 @@ def run(ctx):
     ctx.extra["sensitivity"] = sens
     ctx.extra["constants"] = {
         "QualRepoImpl.cfg": "NsArgs {None,2} NsAdm {None,1,2} QU {1,2} "
-        "DU {d1,d2} ClsU {U} x 4 use lists, BadArgs {none}, lists <= 2",
-        "QualRepoImplBig.cfg (thorough)": "NsArgs/NsAdm {None,1,2,3} QU {1,2} "
-        "DU {d1,d2} ClsU {U,V}, BadArgs {none,badtype}, lists <= 2",
+        "DU {d1,d2} ClsU {U} x 4 use lists, BadArgs {none,badtype}, lists <= 2",
+        "QualRepoImplBig.cfg (thorough)": "as quick, but names {1,2,3}, ns args "
+        "{None,2,3}",
+        "QualRepoImplWide.cfg (thorough)": "as quick, but ns args {None,2,3}, "
+        "add/remove {None,1,2,3}",
         "QualRepoImplSim.cfg (behaviour emission)": "3 namespaces, 3 names, "
         "3 contents, 3 classes, depth 10"}
     if not quick:
         ctx.tlc("QualRepoImpl", "QualRepoImplBig.cfg", timeout=3000,
-                label="Impl => Req, larger universe")
+                label="Impl => Req, three qualifier names")
+        ctx.tlc("QualRepoImpl", "QualRepoImplWide.cfg", timeout=3000,
+                label="Impl => Req, three namespaces that come and go")
 
     drivers = []
-    nsim = 120 if quick else 2500
+    nsim = 120 if quick else 1000
     _, behs = ctx.simulate_behaviours(
         "QualRepoImpl", "QualRepoImplSim.cfg", nsim, 11,
         label="behaviour emission (call sequences)")
     for i, b in enumerate(behs):
         modes = ("all", "none", "out", "none")
-        for mode in ((modes[i % 4],) if quick else ("all", "out", "none")):
+        slow = any(c["op"] == "Compile" for c in b)
+        for mode in ((modes[i % 4],) if quick or slow
+                     else ("all", "out", "none")):
             drivers.append(H.run_calls(ctx.rng, b, mode))
     ctx.extra["tlc_behaviours_replayed"] = len(behs)
-    nrand = 500 if quick else 10000
+    nrand = 500 if quick else 5000
     for i in range(nrand):
         x = ctx.rng.random()
         mode = "all" if x < 0.4 else ("out" if x < 0.6 else "none")
         calls = H.random_calls(ctx.rng, ctx.rng.randint(4, 36),
-                               compile_p=0.008 if quick else 0.02)
+                               compile_p=0.008 if quick else 0.01)
         drivers.append(H.run_calls(ctx.rng, calls, mode))
     verdicts = judge(ctx, drivers)
     selftest(ctx, drivers, verdicts)
@@ -154,7 +164,10 @@ def selftest(ctx, drivers, verdicts):
     """The binding bites: an accepted trace with ONE corrupted field must be
     rejected by TLC with the expected clause."""
     rng = random.Random(ctx.seed + 1)
-    good = [d.events for d, v in zip(drivers, verdicts) if v["ok"]]
+    # accepted traces and the accepted prefixes of rejected ones
+    good = [d.events if v["ok"] else d.events[:v["at"] - 1]
+            for d, v in zip(drivers, verdicts)]
+    good = [t for t in good if t]
     rng.shuffle(good)
     cases = []          # (trace, index of corrupted event, expected clause)
 
@@ -197,6 +210,14 @@ def selftest(ctx, drivers, verdicts):
         lambda e: e["rlist"].pop(),
         lambda e: "Enum.ExactlyDeclaredQualifiers")
     if len(cases) < 5:
+        if ctx.violations:
+            # the code under test deviates so early that (almost) nothing is
+            # accepted; the deviations are reported, the self-test has no
+            # material
+            ctx.extra["selftest_corrupted_traces"] = [
+                "skipped: only %d corruptible accepted events (the run "
+                "reports deviations)" % len(cases)]
+            return
         raise vlib.MachineryError("self-test: only %d corruptible events "
                                   "found" % len(cases))
     n0, e0 = ctx.traces, ctx.events
